@@ -9,8 +9,8 @@ run_demo > $OUT/demo_clean.log 2>&1; RC_CLEAN=$?
 git apply $S/patch.diff || { echo "patch does not apply"; exit 9; }
 /venv/bin/python -m compileall -q pyxel > /dev/null || { echo "does not compile"; git checkout -q -- .; exit 9; }
 run_demo > $OUT/demo_patched.log 2>&1; RC_PATCHED=$?
-/venv/bin/python -m pytest -q -p no:cacheprovider -n 8 --timeout=900 --continue-on-collection-errors --junitxml=$OUT/junit.xml > $OUT/suite.log 2>&1
-git checkout -q -- . ; rm -rf None output
+rm -rf $OUT/bt; /venv/bin/python -m pytest -q -p no:cacheprovider -n 8 --timeout=900 --continue-on-collection-errors --basetemp=$OUT/bt --junitxml=$OUT/junit.xml > $OUT/suite.log 2>&1
+git checkout -q -- . ; rm -rf None output $OUT/bt
 /venv/bin/python - $OUT/junit.xml <<'PY' > $OUT/suite_cmp.txt
 import json,sys,xml.etree.ElementTree as ET
 sp=set(json.load(open('/root/.vp/BASELINE.json'))['stable_pass'])
